@@ -43,11 +43,12 @@ func init() {
 			return 1280
 		},
 		Batches: func(t string) int { return 16 },
-		Rule: fmt.Sprintf("each case = %d generated values of the type family (all int/uint widths, bool, string, []byte, byte/int arrays, *big.Int, HexInt, nested structs with embedded and unexported fields, pointers nil/non-nil, slices nil/empty/long, maps with string/int/uint keys incl. nested, types with RLPEncodeSelf/BinaryMarshaler/MarshalRLP codecs, TypedObj trees) encoded, encoded again, decoded and compared (numbers, bytes, nil-ness of every slice/map/pointer); maps rebuilt in another insertion order must encode to the same bytes and their keys must be strictly ascending when the encoding is read by the harness's own RLP reader; + %d hostile inputs (random bytes, mutated valid encodings, truncations, size fields up to 2^64-1 with few bytes following, non-minimal headers, nesting up to 350 (thorough 1050)) decoded into a family type and through UnmarshalAny: no panic, a fixed valid encoding decoded right afterwards still yields its value (no decoder state kept between calls), truncated top-level item => error, bounded allocation, and an accepted input must re-encode and decode to the same value; + %d crafted integers per case: an integer byte string is accepted only if the decoded value equals the encoded number (no overflow/truncation for int8..int64, uint8..uint64, bool), in-range minimal encodings are accepted; + %d MarshalAny/UnmarshalAny trees. Non-trivial = distinct (type, encoding) with a list or >= 3 bytes.", nRoundTrip, nHostile, nOverflow, nAny),
+		Rule: fmt.Sprintf("each case = %d generated values of the type family (all int/uint widths, bool, string, []byte, byte/int arrays, *big.Int, HexInt, nested structs with embedded and unexported fields, pointers nil/non-nil, slices nil/empty/long, maps with string/int/uint keys incl. nested, types with RLPEncodeSelf/BinaryMarshaler/MarshalRLP codecs, TypedObj trees) encoded (every third one right after a REJECTED encode on the shared codec: nested MarshalBinary/RLPEncodeSelf/MarshalRLP error, chan/func inside a struct/list, bad map key nested or top-level; the pooled result is compared with a fresh non-pooled encoder), encoded again, decoded and compared (numbers, bytes, nil-ness of every slice/map/pointer); maps rebuilt in another insertion order must encode to the same bytes and their keys must be strictly ascending when the encoding is read by the harness's own RLP reader; + %d hostile inputs (random bytes, mutated valid encodings, truncations, size fields up to 2^64-1 with few bytes following, non-minimal headers, nesting up to 350 (thorough 1050)) decoded into a family type and through UnmarshalAny: no panic, a fixed canary value encoded right afterwards (half of the time after a further rejected encode) gives the bytes it gave at process start and its encoding decoded right afterwards still yields its value (no decoder state kept between calls), truncated top-level item => error, bounded allocation, and an accepted input must re-encode and decode to the same value; + %d crafted integers per case: an integer byte string is accepted only if the decoded value equals the encoded number (no overflow/truncation for int8..int64, uint8..uint64, bool), in-range minimal encodings are accepted; + %d MarshalAny/UnmarshalAny trees. Non-trivial = distinct (type, encoding) with a list or >= 3 bytes.", nRoundTrip, nHostile, nOverflow, nAny),
 		MinNonTrivial: func(t string) int { return 50000 },
 		Required: []string{"roundtrip_values", "encode_twice_equal", "map_order_checked", "map_rebuilt_equal", "nil_slices", "empty_slices", "nil_maps", "empty_maps", "nil_pointers",
 			"long_payloads", "hostile_inputs", "hostile_rejected", "hostile_accepted", "hostile_reencode_checked", "top_truncated_rejected", "alloc_guard_checked",
-			"overflow_rejected", "int_in_range_accepted", "any_roundtrips", "any_hostile", "stream_api_roundtrips", "custom_codec_values", "canary_decodes"},
+			"overflow_rejected", "int_in_range_accepted", "any_roundtrips", "any_hostile", "stream_api_roundtrips", "custom_codec_values", "canary_decodes", "canary_encodes", "rejected_encodes", "sequences_rejected_encode_then_roundtrip",
+			"rejected_encode_nested-MarshalBinary-error", "rejected_encode_nested-RLPEncodeSelf-error", "rejected_encode_chan-in-struct", "rejected_encode_bad-map-key-nested", "rejected_encode_deep-list-MarshalBinary-error"},
 		Assumptions: []string{
 			"Go reflect/math/big and the harness's own RLP header reader are the reference",
 			"supported values: shapes whose nil/empty forms the format can tell apart (no pointer-to-slice/map/pointer, no interface fields, custom codecs only where addressable); []byte inside a BinaryMarshaler type is compared without nil-ness",
@@ -213,6 +214,23 @@ func (k *chk) roundTrip(sub int) {
 		c.Count("custom_codec_values", 1)
 	}
 	k.shapes(v)
+	// two-step sequences on the shared codec: a rejected encode (and sometimes
+	// a rejected decode) right before the ordinary one
+	afterRejected := ""
+	if sub%3 == 0 {
+		if r.Intn(3) == 0 {
+			decodeInto(fam("All").t, gen.Bytes(r, 1+r.Intn(20)))
+		}
+		kind, rejected := rejectedEncode(r)
+		c.Note("rt sub=%d rejected-encode kind=%s", sub, kind)
+		if rejected {
+			afterRejected = kind
+			c.Count("rejected_encodes", 1)
+			c.Count("rejected_encode_"+kind, 1)
+		} else {
+			c.Count("rejected_encode_was_accepted", 1)
+		}
+	}
 	enc, err, pan := encodeValue(v)
 	if pan != nil {
 		c.Violation("encode.panic."+panicKey(pan), map[string]interface{}{"type": ft.name, "value": fmt.Sprintf("%+v", v.Interface()), "panic": fmt.Sprint(pan)})
@@ -227,7 +245,9 @@ func (k *chk) roundTrip(sub int) {
 	}
 	// deterministic: a second encode (pooled encoder reused) gives the same bytes
 	enc2, err, _ := encodeValue(v)
-	if err != nil || !bytes.Equal(enc, enc2) {
+	if (err != nil || !bytes.Equal(enc, enc2)) && afterRejected != "" {
+		c.Violation("encode.state-leak.after-rejected-encode.not-deterministic", map[string]interface{}{"type": ft.name, "rejected_kind": afterRejected, "first": hx(enc), "second": hx(enc2)})
+	} else if err != nil || !bytes.Equal(enc, enc2) {
 		c.Violation("encode.not-deterministic", map[string]interface{}{"type": ft.name, "first": hx(enc), "second": hx(enc2)})
 	} else {
 		c.Count("encode_twice_equal", 1)
@@ -252,9 +272,12 @@ func (k *chk) roundTrip(sub int) {
 		c.Violation("roundtrip.bytes-left-over", map[string]interface{}{"type": ft.name, "encoding": hx(enc), "left": hx(rest)})
 	}
 	// the io.Writer / io.Reader entry points
-	if sub%6 == 0 {
+	if sub%6 == 0 || afterRejected != "" {
 		var buf bytes.Buffer
-		if err := codec.BC.Marshal(&buf, v.Addr().Interface()); err != nil || !bytes.Equal(buf.Bytes(), enc) {
+		if err := codec.BC.Marshal(&buf, v.Addr().Interface()); err == nil && !bytes.Equal(buf.Bytes(), enc) && afterRejected != "" {
+			// the pooled encoder and a fresh one disagree right after a rejected encode
+			c.Violation("encode.state-leak.after-rejected-encode", map[string]interface{}{"type": ft.name, "rejected_kind": afterRejected, "pooled_encoder_bytes": hx(enc), "fresh_encoder_bytes": hx(buf.Bytes())})
+		} else if err != nil || !bytes.Equal(buf.Bytes(), enc) {
 			c.Violation("encode.stream-differs", map[string]interface{}{"type": ft.name, "bytes": hx(enc), "stream": hx(buf.Bytes()), "err": fmt.Sprint(err)})
 		}
 		o2 := reflect.New(ft.t)
@@ -264,6 +287,9 @@ func (k *chk) roundTrip(sub int) {
 			c.Violation("roundtrip.stream-value-differs", map[string]interface{}{"type": ft.name, "encoding": hx(enc), "difference": d})
 		}
 		c.Count("stream_api_roundtrips", 1)
+	}
+	if afterRejected != "" {
+		c.Count("sequences_rejected_encode_then_roundtrip", 1)
 	}
 	// maps: insertion order must not matter, keys ascending on the wire
 	k.mapChecks(ft, v, enc)
@@ -521,6 +547,20 @@ func (k *chk) hostile(sub int, deepLeft *int) {
 	// the decoder keeps no state between calls: a valid encoding decoded right
 	// after the hostile one must still give its value
 	{
+		seqKind := ""
+		if sub%2 == 1 {
+			if kind, rejected := rejectedEncode(r); rejected {
+				seqKind = kind
+				c.Count("rejected_encodes", 1)
+			}
+		}
+		// the canary's bytes were obtained when the process started
+		if ce, cerr := codec.BC.MarshalToBytes(&canaryWant); cerr != nil || !bytes.Equal(ce, canaryEnc) {
+			c.Violation("encode.state-leak.canary-encoding-changed", wit(map[string]interface{}{"rejected_encode_before": seqKind, "hostile_decode_err": fmt.Sprint(err),
+				"canary_at_start": hx(canaryEnc), "canary_now": hx(ce), "err": fmt.Sprint(cerr)}))
+			return
+		}
+		c.Count("canary_encodes", 1)
 		var canary canaryT
 		_, cerr, cpan := decodeCanary(&canary)
 		c.Count("canary_decodes", 1)
